@@ -84,6 +84,8 @@ def fingerprint_of(f):
     inp = f.get("input")
     if isinstance(inp, dict) and isinstance(inp.get("corpus"), str):
         return "%s:%s" % (leg, os.path.basename(inp["corpus"]))
+    if isinstance(inp, dict) and isinstance(inp.get("fresh"), str):
+        return "%s:%s" % (leg, inp["fresh"])
     return "%s %s" % (leg, f.get("why", ""))
 
 
@@ -97,9 +99,25 @@ def run(ctx):
     corr_bad, oracle_bad, summary, n_ser_ok, n_shards = [], [], {}, 0, 0
     cases = os.path.join(ctx.out, "cases")
     harness_ran = False
+    fresh = {}
     if ok_build:
         vlib.clean_dir(cases)
-        rc, out = vlib.run([vlib.harness_bin("h18"), cases, ctx.tier], timeout=3000)
+        # programs compiled right now by the tree's compiler (examples, bug samples, instantiation zoo;
+        # shared helper of C02/C04/C17): the names the compiler really prints, for the text / debug-info legs
+        env = vlib.env_offline()
+        try:
+            from props import sierra_runtime as rt
+            fdir = os.path.join(ctx.out, "fresh")
+            vlib.clean_dir(fdir)
+            fresh = rt.compile_fresh_corpus(ctx, fdir)
+            if fresh.get("ok"):
+                env["H18_FRESH_DIR"] = fdir
+            else:
+                ctx.log("fresh corpus not available: %s" % str(fresh.get("error"))[:300])
+        except Exception as ex:  # the shared helper is not this property's machinery
+            fresh = {"ok": False, "error": repr(ex)}
+            ctx.log("fresh corpus not available: %r" % (ex,))
+        rc, out = vlib.run([vlib.harness_bin("h18"), cases, ctx.tier], timeout=3000, env=env)
         ctx.log(out.strip().splitlines()[-1] if out.strip() else "h18: no output")
         if rc != 0 or not os.path.exists(os.path.join(cases, "summary.json")):
             # a crash (abort/OOM/stack overflow cannot be caught in-process) is itself a finding
@@ -234,6 +252,9 @@ def run(ctx):
                                "replace_ids / CanonicalReplacer (cairo-lang-sierra-generator) are not linked",
         "correspondence_disagreements": len(corr_bad),
         "oracle_failures": len(oracle_bad),
+        "fresh_corpus": {"ok": bool(fresh.get("ok")), "compiled": fresh.get("compiled", 0),
+                         "not_compiled": len(fresh.get("not_compiled", [])), "sources": fresh.get("sources"),
+                         "error": fresh.get("error")},
         "boundary_lossy_labels": sorted({b.get("label", "?") for b in summary.get("boundary_lossy", [])}),
         "samples": samples or ["(no samples: harness did not run)"],
     })
